@@ -215,6 +215,23 @@ package build
 //@   modifies nothing
 //@ assume func buildLinks
 //@   modifies nothing
+// A build action starts in an EMPTY temporary directory (C01: what an earlier, failed or interrupted attempt left
+// there must not reach the outputs): prepareDirectories clears the target's temporary directory, and
+// prepareDirectory(d, true) removes d — whatever d is, file or directory — before it recreates it.
+//@ assume func checkForStaleOutput
+//@ func prepareDirectory
+//@   opt nopanic=off
+//@   callsite fs.RemoveAll the_directory_itself [C01]: remove && arg_path == directory
+//@   callsite os.MkdirAll only_after_clearing [C01]: arg_path == directory && (remove ==> called("fs.RemoveAll"))
+//@   ensures cleared_when_asked [C01]: remove && result == nil ==> called("fs.RemoveAll")
+//@ func prepareDirectories
+//@   requires target != nil
+//@   opt nopanic=off
+//@   opt inline=off
+//@   callsite prepareDirectory the_temporary_directory_is_cleared [C01]: \
+//@      (arg_directory == target.TmpDir() && arg_remove) || (arg_directory == target.OutDir() && !arg_remove)
+//@   returnsite both_prepared [C01]: result == nil ==> called("prepareDirectory")
+//
 // Build (C04): the goroutines waiting for this target (WaitForBuild) are released only after the outcome has been
 // recorded in the target's state — Failed before FinishBuild when the build failed — so a dependent that wakes up
 // never sees a failed dependency as still Building (and then builds against it).
@@ -344,8 +361,8 @@ package build
 //@   invariant "range target.DeclaredOutputNames()" named_outs: forall a int :: 0 <= a && a < idx ==> collected(W, target.DeclaredOutputNames()[a]) && \
 //@      (forall b int :: 0 <= b && b < len(outs[target.DeclaredOutputNames()[a]]) ==> collected(W, outs[target.DeclaredOutputNames()[a]][b]))
 //@   invariant "range outs[name]" named_outs_inner: nw == atloop(nw) + idx && collected(W, name) && (forall b int :: 0 <= b && b < idx ==> collected(W, outs[name][b]))
-//@   ensures licences [C08]: forall k int :: 0 <= k && k < len(target.Licences) ==> collected(W, target.Licences[k])
-//@   ensures named_outputs [C08]: forall a int :: 0 <= a && a < len(target.DeclaredOutputNames()) ==> collected(W, target.DeclaredOutputNames()[a]) && \
+//@   loopexit "range target.Licences" licences [C08]: forall k int :: 0 <= k && k < len(target.Licences) ==> collected(W, target.Licences[k])
+//@   loopexit "range target.DeclaredOutputNames()" named_outputs [C08]: forall a int :: 0 <= a && a < len(target.DeclaredOutputNames()) ==> collected(W, target.DeclaredOutputNames()[a]) && \
 //@      (forall b int :: 0 <= b && b < len(target.DeclaredNamedOutputs()[target.DeclaredOutputNames()[a]]) ==> \
 //@         collected(W, target.DeclaredNamedOutputs()[target.DeclaredOutputNames()[a]][b]))
 //@   ensures flags [C08]: collected(HB, target.IsBinary) && collected(HB, target.NeedsTransitiveDependencies) && collected(HB, target.OutputIsComplete) && \
@@ -365,15 +382,15 @@ package build
 //@   ensures provides [C08]: forall lang string :: in(lang, target.Provides) ==> collected(W, lang) && \
 //@      (forall k int :: 0 <= k && k < len(target.Provides[lang]) ==> collected(W, target.Provides[lang][k].String()))
 //@   ensures label [C08]: collected(W, target.Label.String())
-//@   ensures deps [C08]: forall k int :: 0 <= k && k < len(target.DeclaredDependencies()) ==> collected(W, target.DeclaredDependencies()[k].String())
-//@   ensures declared_hashes [C08 C35]: forall k int :: 0 <= k && k < len(target.Hashes) ==> collected(W, target.Hashes[k])
-//@   ensures srcs [C08]: forall k int :: 0 <= k && k < len(target.AllSources()) ==> collected(W, target.AllSources()[k].String())
-//@   ensures outs [C08]: forall k int :: 0 <= k && k < len(target.DeclaredOutputs()) ==> collected(W, target.DeclaredOutputs()[k])
-//@   ensures optional_outs [C08]: forall k int :: 0 <= k && k < len(target.OptionalOutputs) ==> collected(W, target.OptionalOutputs[k])
-//@   ensures labels [C08]: forall k int :: 0 <= k && k < len(target.Labels) ==> collected(W, target.Labels[k])
-//@   ensures secrets [C08]: forall k int :: 0 <= k && k < len(target.Secrets) ==> collected(W, target.Secrets[k])
-//@   ensures requires_ [C08]: forall k int :: 0 <= k && k < len(target.Requires) ==> collected(W, target.Requires[k])
-//@   ensures output_dirs [C08]: forall k int :: 0 <= k && k < len(target.OutputDirectories) ==> collected(W, string(target.OutputDirectories[k]))
+//@   loopexit "range target.DeclaredDependencies()" deps [C08]: forall k int :: 0 <= k && k < len(target.DeclaredDependencies()) ==> collected(W, target.DeclaredDependencies()[k].String())
+//@   loopexit "range target.Hashes" declared_hashes [C08 C35]: forall k int :: 0 <= k && k < len(target.Hashes) ==> collected(W, target.Hashes[k])
+//@   loopexit "range target.AllSources()" srcs [C08]: forall k int :: 0 <= k && k < len(target.AllSources()) ==> collected(W, target.AllSources()[k].String())
+//@   loopexit "range target.DeclaredOutputs()" outs [C08]: forall k int :: 0 <= k && k < len(target.DeclaredOutputs()) ==> collected(W, target.DeclaredOutputs()[k])
+//@   loopexit "range target.OptionalOutputs" optional_outs [C08]: forall k int :: 0 <= k && k < len(target.OptionalOutputs) ==> collected(W, target.OptionalOutputs[k])
+//@   loopexit "range target.Labels" labels [C08]: forall k int :: 0 <= k && k < len(target.Labels) ==> collected(W, target.Labels[k])
+//@   loopexit "range target.Secrets" secrets [C08]: forall k int :: 0 <= k && k < len(target.Secrets) ==> collected(W, target.Secrets[k])
+//@   loopexit "range target.Requires" requires_ [C08]: forall k int :: 0 <= k && k < len(target.Requires) ==> collected(W, target.Requires[k])
+//@   loopexit "range target.OutputDirectories" output_dirs [C08]: forall k int :: 0 <= k && k < len(target.OutputDirectories) ==> collected(W, string(target.OutputDirectories[k]))
 //@   ensures pass_env [C08 C10]: target.PassEnv != nil ==> (forall k int :: 0 <= k && k < len(deref(target.PassEnv)) ==> \
 //@      collected(W, deref(target.PassEnv)[k]) && collected(W, os.Getenv(deref(target.PassEnv)[k])))
 //@   ensures command [C08]: collected(W, target.GetCommand(state))
